@@ -40,6 +40,8 @@ import Pumpkin.Model.Branching
 import Pumpkin.Model.Drcp
 import Pumpkin.Model.Dimacs
 import Pumpkin.Model.ImplicitReason
+import Pumpkin.Model.Lits
+import Pumpkin.Model.SemMin
 import Pumpkin.Check.Rup
 import Pumpkin.Check.MaxSat
 import Pumpkin.Check.DrcpCheck
@@ -451,6 +453,61 @@ def respond (st : St) (line : String) : St × Option String :=
            | .panicked => "err panicked"
        if model == impl then (st, some s!"ok wcnf {(model.splitOn " ").take 2}")
        else (st, some s!"FAIL wcnf model=[{model}] impl=[{impl}]"))
+  | "litsfile" :: n :: rest =>
+    -- `litsfile <n> b1 … bn :: <result of the real LiteralDefinitions::parse>`: exact correspondence
+    -- with Model/Lits (the map keeps the last definition of a code; reported in code order)
+    (match n.toNat? with
+     | none => (st, some "FAIL litsfile unparsed")
+     | some k =>
+       let bytes := (rest.take k).filterMap String.toNat?
+       let impl := " ".intercalate (rest.drop (k + 1))
+       if bytes.length != k || (rest.drop k).head? != some "::" then (st, some "FAIL litsfile unparsed") else
+       let name := fun (bs : List Nat) => String.ofList (bs.map Char.ofNat)
+       let model := match Pumpkin.Lits.parseFile bytes with
+         | none => "err"
+         | some defs =>
+           -- last definition per code wins, then sort by code
+           let dedup := defs.foldl (fun acc d => (acc.filter (fun e => e.1 != d.1)) ++ [d]) ([] : List (Nat × List Pumpkin.Lits.Atomic))
+           let sorted := dedup.mergeSort (fun a b => a.1 ≤ b.1)
+           sorted.foldl (fun acc d =>
+             acc ++ s!" {d.1} {d.2.length}" ++ d.2.foldl (fun a at_ =>
+               a ++ (match at_ with
+                 | .int nm c v => s!" i {name nm} " ++ (match c with | .ge => "ge" | .le => "le" | .eq => "eq" | .ne => "ne") ++ s!" {v}"
+                 | .bool nm v => s!" b {name nm} {v}")) "") "ok"
+       if model == impl then (st, some s!"ok litsfile {(model.splitOn " ").take 1}")
+       else (st, some s!"FAIL litsfile model=[{model}] impl=[{impl}]"))
+  | "semmin" :: mergeTok :: rest =>
+    -- `semmin <merge 0|1> <n> <input atoms> :: (false | <k> <output atoms>)`: exact correspondence of
+    -- the real SemanticMinimiser::minimise with Model/SemMin (as sets of predicates; the original
+    -- domains are the declared domains of the current model)
+    (match (do
+        let (inp, r1) ← pList pAtom rest
+        match r1 with
+        | "::" :: "false" :: _ => pure (inp, (none : Option (List Atom)))
+        | "::" :: r2 =>
+          let (outp, _) ← pList pAtom r2
+          pure (inp, some outp)
+        | _ => none) with
+     | none => (st, some "FAIL semmin unparsed")
+     | some (inp, impl) =>
+       let origOf := fun (x : Nat) =>
+         match st.model.doms[x]? with
+         | some (v :: vs) =>
+           let lo := vs.foldl min v
+           let hi := vs.foldl max v
+           let holes := ((List.range (hi - lo + 1).toNat).map (fun (i : Nat) => lo + (i : Int))).filter (fun z => !(v :: vs).contains z)
+           (⟨lo, hi, holes, false⟩ : Pumpkin.SemMin.SD)
+         | _ => ⟨0, 0, [], false⟩
+       let model := Pumpkin.SemMin.minimise origOf inp (mergeTok == "1")
+       let one := fun (a : Atom) => match a with
+         | .ge x v => s!"ge:{x}:{v}" | .le x v => s!"le:{x}:{v}" | .ne x v => s!"ne:{x}:{v}" | .eq x v => s!"eq:{x}:{v}"
+       let norm := fun (l : List Atom) => (l.map one).mergeSort (fun a b => a ≤ b)
+       let shown := fun (l : List Atom) => ",".intercalate (norm l)
+       match model, impl with
+       | none, none => (st, some "ok semmin false")
+       | some m, some i => if norm m == norm i then (st, some "ok semmin") else (st, some s!"FAIL semmin model={shown m} impl={shown i}")
+       | none, some i => (st, some s!"FAIL semmin model=false impl={shown i}")
+       | some m, none => (st, some s!"FAIL semmin model={shown m} impl=false"))
   | "implicit" :: rest =>
     -- `implicit <trail atom> <queried atom> <n> <reason atoms>`: exact correspondence with
     -- Model/ImplicitReason (the reason the real conflict analysis derived for a predicate that is
